@@ -302,8 +302,9 @@ class PFITSReader(Filterbank):
             raise ValueError(msg)
 
         startsub, startsamp = divmod(start, self.sub_hdr.subint_samples)
+        # The request may begin inside a sub-integration: read every row it touches
         nsubs = (
-            nsamps + self.sub_hdr.subint_samples - 1
+            startsamp + nsamps + self.sub_hdr.subint_samples - 1
         ) // self.sub_hdr.subint_samples
         data = self._fitsfile.read_subints(startsub, nsubs)
         data = data[startsamp : startsamp + nsamps]
